@@ -12,15 +12,17 @@ Lemma lookup_seq_gen : forall suf pre,
   flat_map (lookup1 (pre ++ suf)) (zseq (Z.of_nat (length pre) + 1) (length suf)) = suf.
 Proof.
   induction suf as [|x suf IH]; intros pre; [reflexivity|].
-  cbn [length zseq flat_map]. f_equal.
-  - unfold lookup1, py_index.
+  cbn [length zseq flat_map].
+  assert (H1 : lookup1 (pre ++ x :: suf) (Z.of_nat (length pre) + 1) = [x]).
+  { unfold lookup1, py_index.
     replace (Z.of_nat (length pre) + 1 - 1) with (Z.of_nat (length pre)) by lia.
     destruct (0 <=? Z.of_nat (length pre)) eqn:E; [|lia].
-    rewrite Nat2Z.id, nth_error_app2 by lia. rewrite Nat.sub_diag. reflexivity.
-  - specialize (IH (pre ++ [x])). rewrite <- app_assoc in IH. cbn [app] in IH.
-    rewrite app_length in IH. cbn [length] in IH.
-    replace (Z.of_nat (length pre + 1) + 1) with (Z.of_nat (length pre) + 1 + 1) in IH by lia.
-    exact IH.
+    rewrite Nat2Z.id, nth_error_app2 by lia. rewrite Nat.sub_diag. reflexivity. }
+  rewrite H1. cbn [app]. f_equal.
+  specialize (IH (pre ++ [x])). rewrite <- app_assoc in IH. cbn [app] in IH.
+  rewrite app_length in IH. cbn [length] in IH.
+  replace (Z.of_nat (length pre + 1) + 1) with (Z.of_nat (length pre) + 1 + 1) in IH by lia.
+  exact IH.
 Qed.
 
 Lemma lookup_seq : forall l, flat_map (lookup1 l) (zseq 1 (length l)) = l.
@@ -36,72 +38,177 @@ Proof. induction l as [|x l IH]; [reflexivity|]. cbn. now rewrite IH. Qed.
 Lemma flat_map_ext' {A B} (f g : A -> list B) l : (forall x, f x = g x) -> flat_map f l = flat_map g l.
 Proof. intros H. induction l as [|x l IH]; [reflexivity|]. cbn. now rewrite H, IH. Qed.
 
-Lemma zrange_len a b : Z.of_nat (length (zrange a b)) = Z.max 0 (b - a).
-Proof. unfold zrange. rewrite zseq_length. lia. Qed.
-
 Lemma length_one_inv : forall l : list Z, Z.of_nat (length l) = 1 -> exists x, l = [x].
 Proof. intros [|x [|y l]] H; cbn in H; try lia. now exists x. Qed.
 
-(* ---------- array mode ---------- *)
+Lemma zrange_length a b : length (zrange a b) = Z.to_nat (b - a).
+Proof. unfold zrange. apply zseq_length. Qed.
+
+(* ---------- one execution ---------- *)
+Lemma grown_index sc s missing r :
+  s_pieces s = [header sc; array_header sc; PBase; grow_all sc; PEnd] ->
+  grown_by_run s missing r = match index_value s r with Some t => [t] | None => [] end.
+Proof. intros H. unfold grown_by_run. rewrite H. destruct sc; cbn; now rewrite app_nil_r. Qed.
+
+Lemma grown_lookup sc s missing r l :
+  s_pieces s = [header sc; array_header sc; PBase; grow_partial sc; PEnd] -> s_ids s = IdsList l ->
+  grown_by_run s missing r = match index_value s r with Some t => lookup1 l t | None => [] end.
+Proof.
+  intros H Hi. unfold grown_by_run. rewrite H, Hi. unfold lookup1.
+  destruct sc; cbn; rewrite app_nil_r; destruct (index_value s r); reflexivity.
+Qed.
+
+Lemma grown_single sc s missing r :
+  s_pieces s = [header sc; PBase; PSingle; PEnd] ->
+  grown_by_run s missing r = match s_ids s with IdsList l => l | IdsDynamic => missing end.
+Proof. intros H. unfold grown_by_run. rewrite H. destruct sc; cbn; now rewrite app_nil_r. Qed.
+
+Lemma has_array_header sc g :
+  existsb (fun p => match p with PSgeArrayHeader | PPbsArrayHeader | PSlurmArrayHeader => true | _ => false end)
+          [header sc; array_header sc; PBase; g; PEnd] = true.
+Proof. destruct sc; reflexivity. Qed.
+
+(* ---------- array mode, a tuple of ids (explicit request or the missing ones) ---------- *)
+Lemma array_partial_tasks sc s missing l :
+  s_pieces s = [header sc; array_header sc; PBase; grow_partial sc; PEnd] ->
+  s_ids s = IdsList l -> s_run_start s = Some 1 -> s_run_stop s = Some (Z.of_nat (length l)) ->
+  s_rewrite s = sched_eqb sc PBS && (Z.of_nat (length l) =? 1) ->
+  tasks_grown s missing = l
+  /\ header_range s = (if s_rewrite s then None else Some (1, Z.of_nat (length l))).
+Proof.
+  intros Hp Hi Ha Hb Hr. unfold tasks_grown, runs, header_range. rewrite Ha, Hb, Hp, has_array_header.
+  destruct (s_rewrite s) eqn:Er.
+  - symmetry in Hr. apply andb_true_iff in Hr as [_ Hl]. rewrite Hl. change (1 =? 1) with true. cbn [andb].
+    split; [|reflexivity]. cbn [flat_map]. rewrite (grown_lookup sc s missing None l Hp Hi).
+    unfold index_value. rewrite Er. apply Z.eqb_eq in Hl. destruct (length_one_inv l Hl) as [x ->].
+    reflexivity.
+  - cbn [andb]. split; [|reflexivity].
+    replace (Z.to_nat (Z.of_nat (length l) - 1 + 1)) with (length l) by lia.
+    rewrite flat_map_map_some.
+    rewrite (flat_map_ext' _ (lookup1 l)); [apply lookup_seq|].
+    intros t. rewrite (grown_lookup sc s missing (Some t) l Hp Hi). unfold index_value. now rewrite Er.
+Qed.
+
+(* ---------- array mode, nothing grown yet: every batch ---------- *)
+Lemma array_all_tasks sc s missing B :
+  s_pieces s = [header sc; array_header sc; PBase; grow_all sc; PEnd] ->
+  s_run_start s = Some 1 -> s_run_stop s = Some B ->
+  s_rewrite s = sched_eqb sc PBS && (Z.of_nat (length (zrange 1 (B + 1))) =? 1) ->
+  tasks_grown s missing = zrange 1 (B + 1)
+  /\ header_range s = (if s_rewrite s then None else Some (1, B)).
+Proof.
+  intros Hp Ha Hb Hr. unfold tasks_grown, runs, header_range. rewrite Ha, Hb, Hp, has_array_header.
+  destruct (s_rewrite s) eqn:Er.
+  - symmetry in Hr. apply andb_true_iff in Hr as [_ Hl]. apply Z.eqb_eq in Hl.
+    rewrite zrange_length in Hl. assert (B = 1) by lia. subst B. change (1 =? 1) with true. cbn [andb].
+    split; [|reflexivity]. cbn [flat_map]. rewrite (grown_index sc s missing None Hp).
+    unfold index_value. rewrite Er. reflexivity.
+  - cbn [andb]. split; [|reflexivity]. rewrite flat_map_map_some.
+    rewrite (flat_map_ext' _ (fun t => [t])).
+    + rewrite flat_map_single. unfold zrange. f_equal. lia.
+    + intros t. rewrite (grown_index sc s missing (Some t) Hp). unfold index_value. now rewrite Er.
+Qed.
+
+(* ---------- single mode ---------- *)
+Lemma single_tasks sc s missing :
+  s_pieces s = [header sc; PBase; PSingle; PEnd] -> s_run_start s = None ->
+  tasks_grown s missing = match s_ids s with IdsList l => l | IdsDynamic => missing end
+  /\ header_range s = None.
+Proof.
+  intros Hp Ha. unfold tasks_grown, runs, header_range. rewrite Ha. split; [|reflexivity].
+  cbn [flat_map]. rewrite (grown_single sc s missing None Hp). apply app_nil_r.
+Qed.
+
+(* ---------- the selection ---------- *)
 Section Select.
   Variables (sc : scheduler) (bids : option (list Z)) (nres : Z) (missing : list Z) (B : Z).
 
-  Let want := intended bids nres missing B.
-  Let ids0 := match bids with
-              | Some l => l
-              | None => if nres =? 0 then zrange 1 (B + 1) else missing
-              end.
+  (* when the request names no ids and nothing is grown yet, the missing ids are all of them *)
+  Definition state_consistent : Prop := bids = None -> nres = 0 -> missing = zrange 1 (B + 1).
 
-  Lemma want_ids0 : want = ids0.
-  Proof. reflexivity. Qed.
-
-  Lemma array_sel_shape :
-    select sc MArray bids nres missing B
-    = mk_sel (match bids with Some _ => APartial | None => if nres =? 0 then AAll else APartial end)
-             (Some 1)
-             (Some (match bids with Some _ => Z.of_nat (length ids0)
-                               | None => if nres =? 0 then B else Z.of_nat (length ids0) end))
-             (IdsList ids0)
-             [header sc; array_header sc; PBase;
-              match bids with Some _ => grow_partial sc
-                         | None => if nres =? 0 then grow_all sc else grow_partial sc end; PEnd]
-             (sched_eqb sc PBS && (Z.of_nat (length ids0) =? 1)).
+  Theorem tasks_exact md :
+    state_consistent ->
+    tasks_grown (select sc md bids nres missing B) missing = intended bids nres missing B.
   Proof.
-    unfold select, ids0. destruct bids as [l|]; [reflexivity|]. destruct (nres =? 0); reflexivity.
+    intros Hc. unfold state_consistent in Hc. unfold intended. destruct md.
+    - destruct bids as [l|] eqn:Eb.
+      + apply (array_partial_tasks sc _ missing l); reflexivity.
+      + destruct (nres =? 0) eqn:En.
+        * apply (array_all_tasks sc _ missing B); unfold select; rewrite En; reflexivity.
+        * apply (array_partial_tasks sc _ missing missing); unfold select; rewrite En; reflexivity.
+    - destruct (single_tasks sc (select sc MSingle bids nres missing B) missing) as [-> _];
+        [destruct bids; reflexivity | destruct bids; reflexivity |].
+      destruct bids as [l|] eqn:Eb; [reflexivity|]. cbn [select s_ids].
+      destruct (nres =? 0) eqn:En; [|reflexivity]. apply Hc; [reflexivity|lia].
   Qed.
 
-  (* the rewrite happens exactly for PBS requests of one task; otherwise the header carries the
-     range 1..(number of tasks) *)
-  Lemma array_header_range :
-    header_range (select sc MArray bids nres missing B)
-    = if sched_eqb sc PBS && (Z.of_nat (length want) =? 1) then None
-      else Some (1, Z.of_nat (length want)).
+  (* the array range of the header: 1..(number of tasks); for PBS and a single task no array
+     line at all (and the program uses the constant index) *)
+  Theorem array_range :
+    0 <= B ->
+    let s := select sc MArray bids nres missing B in
+    let n := Z.of_nat (length (intended bids nres missing B)) in
+    header_range s = (if sched_eqb sc PBS && (n =? 1) then None else Some (1, n))
+    /\ s_rewrite s = sched_eqb sc PBS && (n =? 1).
   Proof.
-    rewrite array_sel_shape, want_ids0. unfold header_range. cbn [s_run_start s_run_stop s_pieces s_rewrite].
-    assert (Hh : existsb (fun p => match p with PSgeArrayHeader | PPbsArrayHeader | PSlurmArrayHeader => true
-                                           | _ => false end)
-                   [header sc; array_header sc; PBase;
-                    match bids with Some _ => grow_partial sc
-                               | None => if nres =? 0 then grow_all sc else grow_partial sc end; PEnd] = true)
-      by (destruct sc; reflexivity).
-    rewrite Hh. clear Hh.
-    assert (Hstop : match bids with Some _ => Z.of_nat (length ids0)
-                               | None => if nres =? 0 then B else Z.of_nat (length ids0) end
-                    = Z.of_nat (length ids0) \/
-                    (bids = None /\ (nres =? 0) = true /\ Z.of_nat (length ids0) = Z.max 0 B)).
-    { unfold ids0. destruct bids; [now left|]. destruct (nres =? 0); [right|now left].
-      repeat split. rewrite zrange_len. lia. }
-    destruct Hstop as [-> | (Hb & Hn & Hlen)].
-    - destruct (sched_eqb sc PBS && (Z.of_nat (length ids0) =? 1)) eqn:E; cbn [andb].
-      + apply andb_true_iff in E as [_ E]. rewrite E. reflexivity.
-      + reflexivity.
-    - rewrite Hb, Hn. rewrite Hb, Hn in Hlen. unfold ids0 in *. rewrite Hb, Hn in *.
-      destruct (sched_eqb sc PBS); cbn [andb].
-      + destruct (Z.of_nat (length (zrange 1 (B + 1))) =? 1) eqn:E.
-        * assert (B = 1) by lia. subst B. reflexivity.
-        * cbn [andb]. f_equal. f_equal. (* no rewrite: stop = B, and B is the length unless B < 0 *)
-          destruct (Z.leb_spec 0 B); [lia|].
-          (* B < 0: the code writes the range 1-B for an impossible crop; excluded below *)
-          exfalso. clear E. revert Hlen. rewrite zrange_len. intros _. 
-          (* cannot be excluded here: handled by the hypothesis of the theorem *)
-          admit_placeholder.
+    intros HB s n. subst s n. unfold intended. destruct bids as [l|] eqn:Eb.
+    - destruct (array_partial_tasks sc (select sc MArray (Some l) nres missing B) missing l) as [_ ->];
+        try reflexivity. split; reflexivity.
+    - destruct (nres =? 0) eqn:En.
+      + destruct (array_all_tasks sc (select sc MArray None nres missing B) missing B) as [_ ->];
+          try (unfold select; rewrite En; reflexivity).
+        unfold select. rewrite En. cbn [s_rewrite ids_len].
+        split; [|reflexivity].
+        destruct (sched_eqb sc PBS && (Z.of_nat (length (zrange 1 (B + 1))) =? 1)) eqn:E; [reflexivity|].
+        f_equal. f_equal. rewrite zrange_length. lia.
+      + destruct (array_partial_tasks sc (select sc MArray None nres missing B) missing missing) as [_ ->];
+          try (unfold select; rewrite En; reflexivity).
+        unfold select. rewrite En. split; reflexivity.
+  Qed.
+End Select.
+
+(* ---------- consequences used by the property theorems ---------- *)
+Lemma intended_nodup bids nres missing B :
+  (forall l, bids = Some l -> NoDup l) -> NoDup missing -> NoDup (intended bids nres missing B).
+Proof.
+  intros Hl Hm. unfold intended. destruct bids as [l|]; [now apply Hl|].
+  destruct (nres =? 0); [apply zseq_nodup|exact Hm].
+Qed.
+
+(* the pieces of a single-mode script never use the keys that only array mode supplies, and an
+   array-mode selection supplies them *)
+Lemma select_supplies sc md bids nres missing B :
+  let s := select sc md bids nres missing B in
+  forallb (fun p => negb (array_only p) || (opt_is_some (s_run_start s) && opt_is_some (s_run_stop s)))
+          (s_pieces s) = true.
+Proof. destruct sc, md, bids; cbn; try destruct (nres =? 0); reflexivity. Qed.
+
+(* header and program pieces belong to the requested scheduler *)
+Lemma select_pieces sc md bids nres missing B :
+  exists g, s_pieces (select sc md bids nres missing B)
+            = match md with
+              | MArray => [header sc; array_header sc; PBase; g; PEnd]
+              | MSingle => [header sc; PBase; g; PEnd]
+              end
+            /\ (g = grow_all sc \/ g = grow_partial sc \/ g = PSingle).
+Proof.
+  destruct md; cbn [select s_pieces]; eexists; (split; [reflexivity|]).
+  - destruct bids; [tauto|]. destruct (nres =? 0); tauto.
+  - tauto.
+Qed.
+
+(* ---------- the crop model supplies the consistency hypothesis ---------- *)
+Section CropState.
+  Context {R : Type}.
+  Lemma fresh_crop_missing (d : @disk R) (o : obj) inf :
+    d_info d = Some inf -> num_results d = 0 -> missing o d = zrange 1 (inf_nb inf + 1).
+  Proof.
+    intros Hi Hn. unfold missing, sync, reload, missing_of. rewrite Hi. cbn [o_nb].
+    unfold num_results in Hn. rewrite Hi in Hn.
+    destruct (d_results d) as [|x l] eqn:Er; [|cbn in Hn; lia].
+    unfold zrange. replace (inf_nb inf + 1 - 1) with (inf_nb inf) by lia.
+    generalize (zseq 1 (Z.to_nat (inf_nb inf))). intros ys.
+    induction ys as [|y ys IH]; [reflexivity|]. cbn [filter]. unfold zmem at 1. cbn [zlookup negb].
+    now rewrite IH.
+  Qed.
+End CropState.
